@@ -35,8 +35,18 @@ ASSUMPTIONS = ['the keys held by party i are exactly those of the subsets contai
 TRUSTED = ['harness/thresha_oracle.py prf_reference / lagrange_at / product formula for f_S']
 
 
+_FS_CACHE = {}
+
+
 def f_S_at(F, m, S, x):
     """textbook f_S(x) = prod_{j not in S} (j+1 - x)/(j+1)"""
+    key = (F.name, m, tuple(S), x)
+    if key not in _FS_CACHE:
+        _FS_CACHE[key] = _f_S_at(F, m, S, x)
+    return _FS_CACHE[key]
+
+
+def _f_S_at(F, m, S, x):
     of = F.of
     r = of.from_int(1)
     for j in range(m):
@@ -102,7 +112,10 @@ def run_config(ctx, rng, F, m, t, bound, n, fn, variant, lines, impl, meta, keys
         if F.lean is not None:
             ents = []
             for S, prf in prfs.items():
-                prl = prf(uci, count)      # outputs of the real PRF handed to the model
+                st_p, prl = exc_name(prf, uci, count)      # outputs of the real PRF handed to the model
+                if st_p != 'ok':
+                    ctx.violation(f'PRF call raised {prl}', dict(rep, party=i, observed=prl))
+                    return
                 ents.append(show_list(list(S)) + ':' + show_list(blk(prl)))
             lines.append(f'{"prss" if fn == "share" else "prss0"} {m} {i} {n} ' + ('|'.join(ents) if ents else '-'))
             impl.append(show_list(res))
@@ -197,6 +210,10 @@ def run(ctx):
         req += lines
         exp += impl
         info += meta
+    ctx.note('observation (triaged, no finding): np_pseudorandom_share_0 uses the reversed coefficient order of '
+             'pseudorandom_share_zero (sum_j r[h*d+j] x^(j+1) vs x^(d-j)); for t >= 2 the two variants give different but '
+             'each internally consistent zero sharings on identical keys/uci; each variant is checked against the oracle '
+             'with its own layout, the Lean model gets the np outputs block-reversed')
     model = common.LeanDriver('Thresha').run(req)
     ctx.compare('pseudorandom_share(_zero) of every party vs MpycV.Thresha.prssShare/prssZero', exp, model, info)
     if req:
@@ -204,13 +221,14 @@ def run(ctx):
     # f_S_i itself (correspondence + product-formula oracle)
     F = Fld(11)
     lines, impl, meta = [F.lean], ['ok'], [{}]
-    for m in range(1, 8):
+    for m in range(1, ctx.scale(6, 8)):
         for t in range(0, m):
             if 2 * t >= m:
                 continue
             for S in itertools.combinations(range(m), m - t):
                 for i in range(m):
-                    v = F.canon(thresha._f_S_i(F.field, m, i, S))
+                    st, v = exc_name(thresha._f_S_i, F.field, m, i, S)
+                    v = F.canon(v) if st == 'ok' else v
                     want = f_S_at(F, m, S, F.of.from_int(i + 1))
                     ctx.count('f_S_i')
                     if v != want:
